@@ -350,6 +350,8 @@ func (qpc *QuotaPreemptionContext) preemptVictims() {
 		if len(victims) > 0 {
 			qpc.results.claimedResource = victimsTotalResource
 			qpc.results.preemptedVictims = victims
+			// only victims that could be marked are announced to the RM
+			preempted := make([]*Allocation, 0, len(victims))
 			for _, victim := range victims {
 				err := victim.MarkPreempted()
 				if err != nil {
@@ -366,8 +368,9 @@ func (qpc *QuotaPreemptionContext) preemptVictims() {
 					zap.String("nodeID", victim.GetNodeID()))
 				qpc.queue.IncPreemptingResource(victim.GetAllocatedResource())
 				victim.SendPreemptedByQuotaChangeEvent(qpc.queue.GetQueuePath())
+				preempted = append(preempted, victim)
 			}
-			app.notifyRMAllocationReleased(victims, si.TerminationType_PREEMPTED_BY_SCHEDULER,
+			app.notifyRMAllocationReleased(preempted, si.TerminationType_PREEMPTED_BY_SCHEDULER,
 				"preempting allocations to enforce new max quota for queue : "+qpc.queue.GetQueuePath())
 		}
 	}
